@@ -202,10 +202,114 @@ def in_outcomes(facts, ib, operand, hv, nv):
                     return hv
                 if i == 0 and nv is not None:
                     return nv
+            x = strip_refs(pe)
+            if x[0] == "call" and x[1] and x[1].get("local") and adt in ("std::option::Option", "std::result::Result"):
+                # a private helper's answer, its Option/Result combinators in case normal form under the assumed kinds
+                res = self.call_results(x, x[2])
+                if res:
+                    vs = set()
+                    for r0 in res:
+                        for r in expand(r0):
+                            r = strip_refs(r)
+                            vs.add(r[1].get("variant") if r[0] == "agg" else None)
+                    if len(vs) == 1 and None not in vs:
+                        return vs.pop()
+                    return None
             return XS.Reader.known(self, pe, adt)
     R = R_(facts, ib, None)
     mem = []
     looped = []
+
+    KIND_ACCESSOR = {"as_str": "String", "as_array": "Array", "as_object": "Object", "as_bool": "Bool", "as_null": "Null", "as_number": "Number",
+                     "is_string": "String", "is_array": "Array", "is_object": "Object", "is_boolean": "Bool", "is_null": "Null", "is_number": "Number"}
+
+    def expand(r):
+        """The values an expression can take, Option/Result combinators in case normal form (rules/optnorm.py); a case
+        that asks serde_json's kind accessor of an operand for an answer the assumed kind excludes is dropped."""
+        from . import optnorm
+        subs = optnorm.cases_expr(facts, r)
+        if not subs:
+            return [r]
+        outs = []
+        for conds, val in subs:
+            feasible = True
+            for k_, v_ in conds:
+                src = optnorm.SRC_EXPRS.get(k_)
+                src = strip_refs(src) if src is not None else None
+                if k_[0] == "variant" and src is not None and src[0] == "call" and src[1] and src[1]["path"].startswith("serde_json::Value::") and src[2]:
+                    acc = KIND_ACCESSOR.get(src[1]["path"].rsplit("::", 1)[1])
+                    i = operand(src[2][0])
+                    kind = hv if i == 1 else (nv if i == 0 else None)
+                    if acc and kind is not None and v_ in ("Some", "None") and (v_ == "Some") != (kind == acc):
+                        feasible = False
+            if feasible:
+                outs.append(val)
+        return outs
+
+    def membership_walk(call):
+        """A private helper that *walks* (loops over) the haystack's elements: on every path a candidate is handed to an
+        equality together with the needle; a candidate that is the same ends the walk with true, one that is not lets
+        the walk go on, and the exhausted walk answers false.  → outcome names, or None when not such a walk."""
+        from . import pathsum
+        fb = facts.body(call[1].get("key"))
+        if fb is None:
+            return None
+        w = pathsum.summarize(fb, known=R.known, env=dict((1 + i, a) for i, a in enumerate(call[2])), max_paths=800)
+        if w.overflow or not w.paths:
+            return None
+        outs, found = [], []
+        for p in w.paths:
+            hits = []
+            for ev in p.events:
+                c = ev[1]
+                if not c or len(ev[2]) != 2:
+                    continue
+                spelling = bool(SPELLING_EQ.search(c["path"]) or any(SPELLING_EQ.search(fw.get("path", "")) for fw in (c.get("fwd") or [])))
+                if not (c.get("local") or spelling):
+                    continue
+                ids = [R.ident(a) for a in ev[2]]
+                cand = [a for a in ids if isinstance(a, tuple) and a[0] == "elem"]
+                if len(cand) != 1 or not any(operand(a) == 0 for a in ids):
+                    continue
+                nx = fb.blocks[cand[0][1]]["term"]
+                S = R.norm(R.stream(pathsum_arg(w, p, cand[0][1], ev[2])))
+                hits.append((ev, c, spelling, S))
+            if not hits:
+                if p.truncated:
+                    return None
+                res = strip_refs(p.result)
+                if not (res[0] == "const" and const_value(res[1]) is False):
+                    return None            # the walk that found nothing must answer false
+                continue
+            if len(hits) != 1:
+                return None
+            ev, c, spelling, S = hits[0]
+            verdict = p.atoms.get(("site", ev[3])) if c.get("local") else p.atoms.get(("pure", pathsum.canon(strip_refs(("call", c, ev[2], ev[3])))))
+            res = strip_refs(p.result) if (not p.truncated and p.result is not None) else None
+            ok_path = (verdict is True and res is not None and res[0] == "const" and const_value(res[1]) is True) or (verdict is False and p.truncated)
+            if not ok_path:
+                return None
+            if S[0] == "adapted" and S[2][0] == "members" and operand(S[2][1]) == 1:
+                outs.append("MEMBERSHIP-AMONG-%s(elements)" % S[1])
+            elif not (S[0] == "members" and operand(S[1]) == 1):
+                outs.append("ANY(%s)" % R.show(S)[:40])
+            elif spelling:
+                outs.append("SPELLING-MEMBERSHIP")
+            else:
+                found.append(c["key"])
+                outs.append("MEMBERSHIP")
+        if not outs:
+            return None
+        mem.extend(found)
+        return outs
+
+    def pathsum_arg(w, p, site, args):
+        """The iterator expression the candidate was pulled from: the argument of the `next()` at `site`, in the
+        caller's terms (taken from the candidate expression itself)."""
+        hit = []
+        for a in args:
+            expr_mentions(a, lambda y: y[0] == "call" and y[1] and y[1]["path"].endswith("::next") and len(y) > 3 and y[3] == site and y[2] and not hit.append(y[2][0]))
+        return hit[0] if hit else ("unknown",)
 
     def payload_of(e, variant):
         """`(X as Ok).0` / `(branch(X) as Continue).0` where X is a private helper's answer: the helper's Ok payloads."""
@@ -220,14 +324,15 @@ def in_outcomes(facts, ib, operand, hv, nv):
             if res is None:
                 return None
             outs = []
-            for r in res:
-                r = strip_refs(r)
-                if r[0] == "agg" and r[1].get("variant") in ("Ok", "Some") and len(r[2]) == 1:
-                    outs.append(r[2][0])
-                elif r[0] == "agg" and r[1].get("variant") in ("Err", "None"):
-                    continue
-                else:
-                    return None
+            for r0 in res:
+                for r in expand(r0):
+                    r = strip_refs(r)
+                    if r[0] == "agg" and r[1].get("variant") in ("Ok", "Some") and len(r[2]) == 1:
+                        outs.append(r[2][0])
+                    elif r[0] == "agg" and r[1].get("variant") in ("Err", "None"):
+                        continue
+                    else:
+                        return None
             return outs
         return None
 
@@ -247,12 +352,19 @@ def in_outcomes(facts, ib, operand, hv, nv):
             if x[1].get("local"):
                 res = R.call_results(x, x[2])
                 if res is None:
+                    walk = membership_walk(x)
+                    if walk is not None:
+                        return walk
                     looped.append(x[1].get("key"))
                     return ["?(helper %s)" % x[1].get("key")]
                 return [o for a in res for o in boolean(a, depth + 1)]
             if path == "core::str::<impl str>::contains" and len(x[2]) == 2:
-                hs = expr_mentions(x[2][0], lambda y: y[0] == "downcast" and y[2] == "String" and operand(y[1]) == 1)
-                ns = expr_mentions(x[2][1], lambda y: y[0] == "downcast" and y[2] == "String" and operand(y[1]) == 0)
+                # the text of a String operand: its payload, or what `as_str` hands out (Some exactly for a String)
+                def text_of(e_, i_):
+                    return expr_mentions(e_, lambda y: (y[0] == "downcast" and y[2] == "String" and operand(y[1]) == i_)
+                                         or (y[0] == "call" and y[1] and y[1]["path"] == "serde_json::Value::as_str" and y[2] and operand(y[2][0]) == i_))
+                hs = text_of(x[2][0], 1)
+                ns = text_of(x[2][1], 0)
                 return ["SUBSTRING" if hs and ns else "SUBSTRING(wrong operands)"]
             if path == "core::slice::<impl [T]>::contains":
                 return ["SPELLING-MEMBERSHIP"]
@@ -288,6 +400,10 @@ def in_outcomes(facts, ib, operand, hv, nv):
             return ["?(deep)"]
         if x[0] == "phi":
             return [o for a in x[2] for o in value(a, depth + 1)]
+        if x[0] == "call" and x[1] and not x[1].get("local") and re.match(r"^std::(option::Option|result::Result)::<", x[1].get("path", "")):
+            ex = expand(x)
+            if ex and not (len(ex) == 1 and strip_refs(ex[0]) == x):
+                return [o for a in ex for o in value(a, depth + 1)]
         if x[0] == "agg" and x[1].get("variant") == "Err":
             return ["ERR"]
         if x[0] == "call" and x[1] and "from_residual" in x[1].get("path", ""):
